@@ -316,6 +316,11 @@ class Run:
         for f in fails:
             if self.prop in f['props']:
                 self.failures.append({'engine': 'verus', **f})
+        for u in w.unclaimed_sites:
+            if self.prop in u['props']:
+                self.failures.append({'engine': 'weaver', 'key': f"{u['file']}|unexpected-emission-site|{u['needle']}|{u['text']}", 'props': u['props'],
+                                      'fn': u['file'], 'msg': 'unexpected-emission-site: an emission site that no contract clause guards',
+                                      'clause': None, 'where': f"{u['file']}:{u['line']}", 'src': u['text'], 'rendered': f"{u['file']}:{u['line']}: {u['text']}"})
         # site anchors that no longer match: their clauses were dropped. If nothing else fails for this property the
         # run cannot vouch for those sites -> UNDECIDED (a failure elsewhere is still a violation).
         soft = [l for l in w.soft_lost if self.prop in l['props']]
